@@ -105,6 +105,36 @@ func runDeferredStmt(n int) {
 	}
 }
 
+func runDeferredParen(n int) {
+	defer (func() int { return rescue() })()
+	if n < 0 {
+		panic("negative")
+	}
+}
+
+// the closure reaches the defer statement through a variable: the optimiser reduces it (open finding D25)
+func viaVariable(n int) {
+	h := func() int { return rescue() }
+	defer h()
+	if n < 0 {
+		panic("negative")
+	}
+}
+
+func later(f func() int, n int) {
+	defer f()
+	if n < 0 {
+		panic("negative")
+	}
+}
+
+func viaParameter(n int) { later(func() int { return rescue() }, n) }
+
+func ProbeFindings() string {
+	Swallowed = 0
+	return try(viaVariable, 1) + " " + try(viaVariable, -1) + " " + try(viaParameter, 1) + " " + try(viaParameter, -1) + " swallowed=" + strconv.Itoa(Swallowed)
+}
+
 func try(run func(int), n int) (res string) {
 	defer func() {
 		if r := recover(); r != nil {
@@ -116,7 +146,7 @@ func try(run func(int), n int) (res string) {
 }
 
 func Probe() string {
-	return try(runDeferred, 1) + " " + try(runDeferred, -1) + " " + try(runDeferredArg, 1) + " " + try(runDeferredArg, -1) + " " + try(runDeferredStmt, 1) + " " + try(runDeferredStmt, -1) + " swallowed=" + strconv.Itoa(Swallowed)
+	return try(runDeferred, 1) + " " + try(runDeferred, -1) + " " + try(runDeferredArg, 1) + " " + try(runDeferredArg, -1) + " " + try(runDeferredStmt, 1) + " " + try(runDeferredStmt, -1) + " " + try(runDeferredParen, 1) + " " + try(runDeferredParen, -1) + " swallowed=" + strconv.Itoa(Swallowed)
 }
 
 // a generator: the file is processed, and its lowered range loop tests the generated iterator variable
@@ -236,13 +266,21 @@ func k11(args []string) {
 				ast.Inspect(fd, func(n ast.Node) bool {
 					if ds, ok := n.(*ast.DeferStmt); ok {
 						sh.Impl = "reduced"
-						if _, isLit := ds.Call.Fun.(*ast.FuncLit); isLit {
+						fun := ds.Call.Fun
+						for {
+							p, ok := fun.(*ast.ParenExpr)
+							if !ok {
+								break
+							}
+							fun = p.X
+						}
+						if _, isLit := fun.(*ast.FuncLit); isLit {
 							sh.Impl = "kept"
 						}
 					}
 					return true
 				})
-				sh.Code = map[string]string{"runDeferred": "defer func() int { return rescue() }()", "runDeferredArg": "defer func(k int) int { return rescueArg(k) }(n)", "runDeferredStmt": "defer func() { quiet() }()"}[fd.Name.Name]
+				sh.Code = map[string]string{"runDeferred": "defer func() int { return rescue() }()", "runDeferredArg": "defer func(k int) int { return rescueArg(k) }(n)", "runDeferredStmt": "defer func() { quiet() }()", "runDeferredParen": "defer (func() int { return rescue() })()"}[fd.Name.Name]
 				shapes = append(shapes, sh)
 			}
 		}
@@ -258,12 +296,21 @@ func k11(args []string) {
 			for _, v := range [][2]string{{"src", "scratch/src/k11"}, {"gen", "scratch/out/k11"}} {
 				d := filepath.Join(mod, "run_"+v[0])
 				os.MkdirAll(d, 0o755)
-				os.WriteFile(filepath.Join(d, "main.go"), []byte("package main\n\nimport (\n\tp \""+v[1]+"\"\n)\n\nfunc main() { println(p.Probe()) }\n"), 0o644)
+				os.WriteFile(filepath.Join(d, "main.go"), []byte("package main\n\nimport (\n\tp \""+v[1]+"\"\n)\n\nfunc main() { println(p.Probe()); println(\"findings: \" + p.ProbeFindings()) }\n"), 0o644)
 				for _, fl := range [][2]string{{"noinline", "-gcflags=scratch/...=-l"}, {"default", "-gcflags=scratch/...="}} {
 					r := exec.Command("go", "run", fl[1], "./run_"+v[0])
 					r.Dir = mod
 					ro, _ := r.CombinedOutput()
-					run[v[0]+":"+fl[0]] = strings.TrimSpace(tail(string(ro), 300))
+					var main, findings []string
+					for _, ln := range strings.Split(strings.TrimSpace(string(ro)), "\n") {
+						if strings.HasPrefix(ln, "findings: ") {
+							findings = append(findings, strings.TrimPrefix(ln, "findings: "))
+						} else {
+							main = append(main, ln)
+						}
+					}
+					run[v[0]+":"+fl[0]] = tail(strings.Join(main, " | "), 300)
+					run[v[0]+":"+fl[0]+":findings"] = tail(strings.Join(findings, " | "), 300)
 				}
 			}
 			res["run"] = run
